@@ -17,5 +17,10 @@ for name, f in steps:
     if name not in parsers:
         parsers[name] = hotxlfp.Parser()
         parsers[name].set_variable('va', 3)
+        if name == 'q1':
+            # the busy neighbour has functions of its own whose names differ from documented ones only in case
+            parsers[name].set_function('Sum', lambda *a: 777)
+            parsers[name].set_function('abs', lambda *a: -1)
+            parsers[name].set_function('Len', lambda *a: 'q1')
     out.append(outcome(parsers[name].parse(f)))
 print(json.dumps(out))
